@@ -24,14 +24,19 @@ RULE = ("(a) P-code grammar texts (opv.gen_pcode.Gen and a structure generator b
 ASSUMPTIONS = [
     "a source line is one ParserMethodLine (what the engine builds from protocol Method lines); for the text route "
     "only \\n and \\r\\n separate lines and no other line-boundary character occurs in the contents",
-    "indentation of a line = number of leading whitespace characters; a line whose indentation contains anything "
-    "but U+0020, a non-parsable indented line (the parser reports column 0 for it) and a line whose opener-ness is "
-    "ambiguous (name starting with a digit etc.) are not judged and suspend judgement of the following lines up to "
-    "the next unflagged line at indent 0",
-    "a line flagged indent_error may be read as present or as absent when the law is evaluated for later lines; a "
-    "later unflagged line is a violation only if its parent differs from the law parent under both readings",
-    "only the implication 'not flagged => parent == law parent' is asserted; correct text that is flagged is counted, "
-    "not judged",
+    "indentation of a line = number of leading whitespace characters; blank and comment lines are transparent for the "
+    "law and only have to exist as nodes, in order, with their line's id",
+    "reading of the statement that is asserted (weakest reasonable one): (R1) as long as the text is correctly indented "
+    "according to the law, an unflagged line must have exactly the law parent (a correctly indented line that is "
+    "flagged is allowed and counted); (R2) the first incorrectly indented line of a text must be flagged. After the "
+    "first incorrectly indented line, and after the first silent mis-nesting, the placement of later lines is not "
+    "judged (the statement says 'for correctly indented text'); DESIGN.md's per-line law is evaluated there only as "
+    "an informational counter",
+    "every R1/R2 witness is re-checked on the text truncated after the offending line (itself a correctly indented "
+    "text resp. a text whose only wrong line is the last one) and reported in that minimal form",
+    "not judged, and ending the judged prefix: a line whose indentation contains anything but U+0020, an indented line "
+    "the parser cannot match (it reports column 0 for it) and a line whose opener-ness is ambiguous (name starting "
+    "with a digit etc.)",
 ]
 REQUIRED = {"texts": 2000, "nodes_checked": 10000, "parent_checks": 5000, "flagged_lines": 500, "law_must_flag": 300}
 EXHAUSTIVE_ALL = False
